@@ -369,9 +369,17 @@ class SymExec:
     def _walrus(p: Path, e: ast.AST) -> ast.AST:
         """`(name := value)` binds `name` on the path and stands for `value` (innermost first).  Only
         for walruses that are evaluated whenever the expression is (callers pass atoms / whole values)."""
+        def outer(n: ast.AST) -> list[ast.NamedExpr]:
+            # walruses of a comprehension / lambda are bound per element there, not on the path
+            if isinstance(n, (ast.ListComp, ast.SetComp, ast.DictComp, ast.GeneratorExp, ast.Lambda)):
+                return []
+            found = [n] if isinstance(n, ast.NamedExpr) else []
+            for c in ast.iter_child_nodes(n):
+                found.extend(outer(c))
+            return found
+
         while True:
-            hits = [n for n in ast.walk(e) if isinstance(n, ast.NamedExpr)
-                    and not any(isinstance(m, ast.NamedExpr) for m in ast.walk(n.value))]
+            hits = [n for n in outer(e) if not any(isinstance(m, ast.NamedExpr) for m in outer(n.value))]
             if not hits:
                 return e
             n = hits[0]
@@ -435,8 +443,7 @@ class SymExec:
                 out.extend(self._test(q, t.body if o else t.orelse, lineno, orig))
             return out
         # an atom (may still contain ternaries or helper calls in operands: resolve them first)
-        if any(isinstance(n, ast.NamedExpr) for n in ast.walk(t)):
-            t = self._walrus(p, t)
+        t = self._walrus(p, t)
         out = []
         needs = _first_ifexp(t) is not None or (
             (self.follow is not None or self.nested) and self._first_followable(t) is not None)
